@@ -135,7 +135,33 @@ def run_findall_copy(sc):
     return not probs, '; '.join(sorted(set(probs))) or 'ok'
 
 
+def run_findall_true(sc):
+    """whether a goal delivers an answer as True or as False is irrelevant to findall/3 (and to call/N, once/1): all answers are collected"""
+    yp = engine.YP()
+    pattern = sc['yields']
+
+    def pt(x):
+        for c, y in zip('abc', pattern):
+            for _ in engine.unify(x, yp.atom(c)):
+                yield y
+    yp.register_function('pt', pt)
+    X, L = yp.variable(), yp.variable()
+    probs = []
+    got = [engine.to_python(L) for _ in yp.query('findall', [X, yp.functor('pt', [X]), L])]
+    if got != [['a', 'b', 'c']]:
+        probs.append('findall(X, pt(X), L) with answers delivered as %s gives %r' % (pattern, got))
+    got = [engine.to_python(X) for _ in yp.query('call', [yp.functor('pt', [X])])]
+    if got != ['a', 'b', 'c']:
+        probs.append('call(pt(X)) with answers delivered as %s gives %r' % (pattern, got))
+    got = [engine.to_python(X) for _ in yp.query('once', [yp.functor('pt', [X])])]
+    if got != ['a']:
+        probs.append('once(pt(X)) gives %r' % (got,))
+    return not probs, '; '.join(probs) or 'ok'
+
+
 def run(sc):
+    if sc.get('kind') == 'findall_true':
+        return run_findall_true(sc)
     if sc.get('kind') == 'findall_copy':
         return run_findall_copy(sc)
     yp = engine.YP()
@@ -184,6 +210,7 @@ def run(sc):
 def scenarios(seed, count):
     out = [dict(t1=a, t2=b) for a, b in itertools.product(SHAPES, SHAPES)]
     out += [dict(kind='findall_copy', template=t, compiled=c, t1='-', t2=t) for t in FA_TEMPLATES for c in (False, True)]
+    out += [dict(kind='findall_true', yields=list(y), t1='-', t2=str(y)) for y in itertools.product((True, False), repeat=3)]
     random.Random(seed).shuffle(out)
     return out[:count]
 
@@ -206,7 +233,7 @@ def main():
         if not ok and len(fails) < 20:
             fails.append(dict(scenario=sc, detail=detail))
     print(json.dumps(dict(evaluations=n, distinct_nontrivial=len(nontriv), failures=fails, failure_count=len(fails), samples=scs[:3],
-                          exhaustive=count >= len(SHAPES) ** 2 + 2 * len(FA_TEMPLATES),
+                          exhaustive=count >= len(SHAPES) ** 2 + 2 * len(FA_TEMPLATES) + 8,
                           rule='all ordered pairs of %d term shapes (incl. pairs whose unifier is cyclic): answers of =, \\=, compiled = and \\= '
                                '(in the clause contexts eq, ne, %s) counted against the engine\'s unify; plus findall/3 with a free variable in the template (7 templates, API and compiled): instances are fresh copies; non-trivial = the two shapes differ'
                                % (len(SHAPES), ', '.join(c[0] for c in CONTEXTS)))))
